@@ -266,7 +266,11 @@ func runApp(c appCase) (res AppRun) {
 			case abortNotMine, harnessError:
 				panic(r)
 			}
-			res.Panic = fmt.Sprintf("%v\n%s", r, trimStack(string(debug.Stack())))
+			if ap, isApp := r.(appPanic); isApp {
+				res.Panic = ap.text
+			} else {
+				res.Panic = fmt.Sprintf("%v\n%s", r, trimStack(string(debug.Stack())))
+			}
 			res.Failed = true
 		}
 		st, err := theApp.capture.Stat()
@@ -290,12 +294,73 @@ func runApp(c appCase) (res AppRun) {
 	if c.Mod != nil {
 		c.Mod(a)
 	}
-	err := a.Run(append([]string{"hranoprovod-cli"}, c.Args...))
+	err := runScheduled(func() error { return a.Run(append([]string{"hranoprovod-cli"}, c.Args...)) })
 	if err != nil {
 		res.Failed = true
 		res.Err = err.Error()
 	}
 	return res
+}
+
+// appPanic carries a panic of the application (value and stack) out of the scheduler thread it happened in.
+type appPanic struct{ text string }
+
+var appSchedActive, appSchedDisabled bool
+
+// runScheduled runs one application run as thread "main" of a cooperative scheduler bound to the current execution:
+// goroutines the command starts become threads, their channel and sync operations transitions (class "appsched",
+// bounded by the exploration's deviation budget, 1 unless it says otherwise). A command that starts no goroutine
+// makes no choice. When the run was concurrent the violations of this execution are not re-run on the plain binary
+// (its schedule is not ours to choose).
+func runScheduled(f func() error) error {
+	x := curExec
+	if x == nil || appSchedActive || appSchedDisabled {
+		return f()
+	}
+	s := NewSched(x)
+	s.Class = "appsched"
+	var err error
+	finished := false
+	pan := ""
+	s.Go("main", func() {
+		defer func() {
+			if r := recover(); r != nil {
+				switch r.(type) {
+				case abortNotMine, harnessError, oracleFailure:
+					panic(r)
+				}
+				pan = fmt.Sprintf("%v\n%s", r, trimStack(string(debug.Stack())))
+			}
+		}()
+		err = f()
+		finished = true
+	})
+	appSchedActive = true
+	func() {
+		defer func() { appSchedActive = false }()
+		s.Run()
+	}()
+	if s.Stalled {
+		// a goroutine blocks on something the scheduler does not intercept: from now on this worker runs the application
+		// on real goroutines (the abandoned threads are blocked for good)
+		appSchedDisabled = true
+		x.Note("application_runs_not_schedulable", 1)
+		return f()
+	}
+	if len(s.Trace) > 0 {
+		x.NoConfirm = true
+		x.Note("concurrent_application_runs", 1)
+	}
+	if pan != "" {
+		panic(appPanic{pan})
+	}
+	if len(s.Panics) > 0 {
+		panic(appPanic{"panic in a goroutine of the command: " + strings.Join(s.Panics, "; ")})
+	}
+	if !finished {
+		return fmt.Errorf("VERIF: the command does not return under the schedule %v (%v)", s.Trace, s.ParkedAtEnd())
+	}
+	return err
 }
 
 // zoneAvailable: the named zone can be loaded in-process.
